@@ -42,6 +42,10 @@ GRPCPROXY = dict(pkg="./cache/grpcproxy", test="TestVerifGrpcProxyRoundTrip", na
 S3PROXY = dict(pkg="./cache/s3proxy", test="TestVerifS3RoundTrip", name="s3proxy", diff=False)
 HTTPPROXY = dict(pkg="./cache/httpproxy", test="TestVerifHTTPProxyRoundTrip", name="httpproxy", diff=False)
 
+SRVREAD = dict(pkg="./server", test="TestVerifServerReadPaths", name="srvread", diff=False)
+
+FDLEAK = dict(pkg="./server", test="TestVerifServerFdLeaks", name="fdleak", diff=False)
+
 COMMON_TB = [
     "goroutine scheduling, sync.Mutex and the file system are modelled (atomic lock regions, process-visible file state), not verified",
 ]
@@ -64,7 +68,7 @@ PROPS = {
         level_text="Theorems on M1's Reserve: refusal iff current + backlog + size exceeds the hard limit, refusal leaves the state unchanged, retry succeeds after the backlog drained, no refusal when the option is off. Server-level oracle: with the cache filled to the limit every write path (HTTP, BatchUpdateBlobs, ByteStream.Write, UpdateActionResult with inlined blobs, FetchBlob; both storage modes) answers 507 / RESOURCE_EXHAUSTED, stores and evicts nothing, reads keep working.",
         level_note=NOTE + "the uint64 sum is modelled exactly.", technique=TECH),
     "C02": dict(
-        lean="BR.Props.C02", runs=[BLOB, BLOBREAL, DISK], trusted_base=COMMON_TB + [
+        lean="BR.Props.C02", runs=[BLOB, BLOBREAL, DISK, SRVREAD], trusted_base=COMMON_TB + [
             "zstd codecs (klauspost, libzstd) enter the theorems as a parameter satisfying Codec.Lawful; SHA-256 as an opaque function"],
         assumptions=["offset >= 0 (enforced by disk.get before the readers are called)"],
         level_text="Theorems on M2 (casblob): for every conformant file (any chunk size, any frames decoding to the chunks) and every offset below the size, both readers return exactly data[offset:] (raw: the bytes; zstd: a stream decoding to them); the writer's output is conformant; readers are total.",
@@ -105,7 +109,7 @@ PROPS = {
         level_text="Theorems on M8's validator: each invalid class is rejected wherever it occurs, acceptance iff every component is well formed; validator compared with validate.ActionResult on generated messages; server oracle: rejected => nothing served, accepted => served equal modulo worker name, JSON = proto, latest wins.",
         level_note=NOTE + "the validator's verdicts are compared message by message.", technique=TECH),
     "C14": dict(
-        lean="BR.Props.C14", runs=[BLOB, PARSERS, HANDLERS, BYTESTREAM], trusted_base=COMMON_TB + ["third-party decoders, the Go runtime and grpc-go are outside the model"],
+        lean="BR.Props.C14", runs=[BLOB, PARSERS, HANDLERS, BYTESTREAM, FDLEAK], trusted_base=COMMON_TB + ["third-party decoders, the Go runtime and grpc-go are outside the model"],
         assumptions=["memory exhaustion and real-time hangs cannot be exhibited by the model"],
         level_text="Partial. Theorems: casblob readers total on every byte string, resource-name parsers total, validator and GetTree walk handle absent sub-messages, Write answers every message sequence. Harness: every handler called in-process under recover with absent sub-messages and ill-formed stored blobs; mutated stored files; goroutine/reservation leak oracle.",
         level_note=NOTE + "partial: goroutine life cycle, third-party panics and resource exhaustion are checked by oracle only.", technique=TECH),
